@@ -402,6 +402,27 @@ def write_replay(ctx, kind, payload):
     return path
 
 
+def guarded(ctx, fn, *args):
+    """run one stage of a property module.  An exception that escapes the stage and was raised INSIDE the code
+    under test (innermost wannierberri frame under WB_REPO) on a harness-generated valid input is a failure of the
+    property on that input, not an infrastructure problem; anything else is re-raised (exit 2)."""
+    try:
+        fn(*args)
+    except (InfraError, subprocess.TimeoutExpired, KeyboardInterrupt):
+        raise
+    except Exception as e:  # noqa
+        root = os.path.realpath(REPO) + os.sep
+        frames = traceback.extract_tb(e.__traceback__)
+        if frames and os.path.realpath(frames[-1].filename).startswith(root) or \
+                any(os.path.realpath(f.filename).startswith(root) for f in frames[-4:]):
+            where = [f"{os.path.relpath(f.filename, root)}:{f.lineno} {f.name}" for f in frames
+                     if os.path.realpath(f.filename).startswith(root)][-3:]
+            ctx.fail(f"{fn.__name__}: the code under test raised {type(e).__name__}: {str(e)[:300]} at {where}",
+                     {"traceback": traceback.format_exc().strip().split("\n")[-14:]})
+        else:
+            raise
+
+
 def run_check(mod, tier, seed, replay=None):
     pid = mod.PID
     ctx = Ctx(pid, tier, seed)
@@ -418,16 +439,16 @@ def run_check(mod, tier, seed, replay=None):
             return 1 if ctx.failures else 0
         proof = ctx.audit()
         if hasattr(mod, "tables"):
-            mod.tables(ctx)
+            guarded(ctx, mod.tables, ctx)
         if hasattr(mod, "corr"):
-            mod.corr(ctx)
-        mod.oracle(ctx, 1)
+            guarded(ctx, mod.corr, ctx)
+        guarded(ctx, mod.oracle, ctx, 1)
         broken = (not proof["ok"]) or bool(ctx.mismatches)
         if broken and not ctx.failures:
             # the tie between theorem and code no longer checks: search the implementation for a failing input
             ctx.searching = True
             ctx.note("proof/correspondence broken: running the failing-input search (oracle x8)")
-            mod.oracle(ctx, 8)
+            guarded(ctx, mod.oracle, ctx, 8)
         rc = 0
         nviol = 0
         for key, hit in sorted(ctx.known_hits.items()):
